@@ -115,6 +115,43 @@ func runC07s(rc *RunCtx) {
 			r := seen[G.Draw(len(seen))]
 			between := checks - r.checks
 			dr := len(ms.W.Dials)
+			if N > 0 && between <= N-1 && G.Draw(4) == 0 {
+				// "treated exactly like an invalid probe", as a prober sees it: the replay
+				// and a same-sized piece of noise are presented side by side, both some
+				// time after connecting, both keeping their side open. Whatever the server
+				// does with the noise (the matter of C06), it does the same with the replay,
+				// at the same time.
+				d := []time.Duration{5 * time.Second, 20 * time.Second, 40 * time.Second}[G.Draw(3)]
+				noise := payload(G, len(r.wire))
+				var e1, e2 time.Duration
+				var c1, c2 *simnet.TCPConn
+				var f1, f2 flag
+				simrt.GoNamed("slow-replay", func() { e1, c1 = ms.slowProbe(addr, r.wire, d); f1.Set() })
+				simrt.GoNamed("slow-noise", func() { e2, c2 = ms.slowProbe(addr, noise, d); f2.Set() })
+				f1.Wait()
+				f2.Wait()
+				checks++
+				r.checks = checks
+				rc.Probe("slow_replay_next_to_noise")
+				if c1 == nil || c2 == nil {
+					continue
+				}
+				if len(ms.W.Dials) > dr {
+					rc.Failf("replay-served", "op %d: a handshake presented again on %s after %d other handshakes (history %d) was served again (target dialed)", op, addr, between, N)
+					continue
+				}
+				_, rst1 := c1.Has("rst-recv")
+				_, rst2 := c2.Has("rst-recv")
+				w1, w2 := len(c1.Peer().Wrote), len(c2.Peer().Wrote)
+				diff := e1 - e2
+				if diff < 0 {
+					diff = -diff
+				}
+				if rst1 != rst2 || w1 != w2 || diff > time.Second {
+					rc.Failf("replay-distinguishable-from-probe", "op %d: a replayed handshake and %d bytes of noise, both sent %v after connecting to %s and left open: the replay was closed after %v (reset=%v, %d bytes written back), the noise after %v (reset=%v, %d bytes written back)", op, len(noise), d, addr, e1, rst1, w1, e2, rst2, w2)
+				}
+				continue
+			}
 			res := ms.probeTCP(addr, r.key, r.wire)
 			checks++
 			servedAgain := len(ms.W.Dials) > dr
